@@ -136,7 +136,7 @@ def addrof_inst(const, pointee, tier):
 
 
 # ---------------------------------------------------------------- allocation
-def malloc_inst(elem, tier, offset_backend=False):
+def malloc_inst(elem, tier, offset_backend=False, single=False):
     TT = cs('rlbox::tainted<%s *, rlbox::vsbx>' % elem)
     esz = HOST_SIZE[elem]
     R = '((uintptr_t)$ret.data)'
@@ -148,6 +148,10 @@ def malloc_inst(elem, tier, offset_backend=False):
         ('frame', '__CPROVER_assigns()'),
     ]
     h = REGIONS + SB_DECL + '  int in_status; sb.sandbox_created = in_status; unsigned int in_count;\n  struct %s r = $ROOT(&sb, in_count);\n' % TT
+    if single:
+        # the overload without a count (one object): same clauses with count == 1; the counted overload is verified inline below it
+        cl = [(k, t.replace('MI($0)', 'MI(1)')) for k, t in cl]
+        h = h.replace('$ROOT(&sb, in_count)', '$ROOT(&sb)')
     ctx = CTX_LEAF
     if offset_backend:
         # a backend of the plain base+offset kind (like the suite's test backend): an out-of-range representation handed back
@@ -157,9 +161,25 @@ def malloc_inst(elem, tier, offset_backend=False):
                sb_req('$this') + [('null_maps_to_null', '__CPROVER_ensures($0 == 0 ==> (uintptr_t)$ret == 0)'),
                                   ('plain_offset', '__CPROVER_ensures($0 != 0 ==> MI((uintptr_t)$ret) == MI(V_BASE[$this->base0.slot]) + MI($0))'),
                                   ('frame', '__CPROVER_assigns()')])
-    return Inst('c03_malloc_in_sandbox_%s%s' % (elem.replace(' ', '_'), '_offset_backend' if offset_backend else ''), 'rlbox_sandbox<vsbx>& s, uint32_t count', 's.malloc_in_sandbox<%s>(count);' % elem, cl, h,
+    return Inst('c03_malloc_in_sandbox_%s%s%s' % (elem.replace(' ', '_'), '_offset_backend' if offset_backend else '', '_single' if single else ''), 'rlbox_sandbox<vsbx>& s, uint32_t count',
+                's.malloc_in_sandbox<%s>(%s);' % (elem, '' if single else 'count'), cl, h,
                 leaves=['dynamic_check', 'vsbx.impl_malloc_in_sandbox', ctx, 'vsbx.impl_is_pointer_in_sandbox_memory', 'vsbx.impl_is_in_same_sandbox'],
                 prop=PROP, root_name='malloc_in_sandbox', tier=tier, pre=PRE_GHOST, replay={'kind': 'malloc', 'elem': elem, 'esz': esz})
+
+
+def same_sandbox_dispatch_inst(tier):
+    """rlbox_sandbox::is_in_same_sandbox for a backend whose query takes the finder as a third argument (the other if-constexpr arm):
+    the two addresses asked about are the two addresses given, in that order"""
+    from vlib.unit import _is
+    leaf = ('vsbx_f3.impl_is_in_same_sandbox(contract: three-argument form)', _is('impl_is_in_same_sandbox', 'vsbx_f3'),
+            '__CPROVER_ensures($ret == (V_WHICH((uintptr_t)$0) == V_WHICH((uintptr_t)$1)))\n__CPROVER_assigns()')
+    cl = [('wf', '__CPROVER_requires(V_BACKEND_WF)'),
+          ('answers_for_the_two_addresses_given', '__CPROVER_ensures($ret == (V_WHICH((uintptr_t)$0) == V_WHICH((uintptr_t)$1)))'),
+          ('frame', '__CPROVER_assigns()')]
+    h = REGIONS + '  uintptr_t in_p1, in_p2;\n  _Bool r = $ROOT((const void *)in_p1, (const void *)in_p2);\n'
+    return Inst('c03_is_in_same_sandbox_finder_backend', 'const void* a, const void* b', 'rlbox_sandbox<vsbx_f3>::is_in_same_sandbox(a, b);', cl, h,
+                leaves=[leaf, 'find_sandbox_from_example'], prop=PROP, root_name='is_in_same_sandbox', tier=tier, pre=PRE_GHOST,
+                note='backend variant vsbx_f3 (query with the finder argument, like the lucet plugin)')
 
 
 # ---------------------------------------------------------------- pointer arithmetic (contracts of C05, C03 clauses)
@@ -259,6 +279,8 @@ def units(tier):
     for elem in (['int'] if tier == 'quick' else ['int', 'char', 'long', 'double']):
         insts.append(malloc_inst(elem, tier))
         insts.append(malloc_inst(elem, tier, offset_backend=True))
+        insts.append(malloc_inst(elem, tier, offset_backend=True, single=True))
+    insts.append(same_sandbox_dispatch_inst(tier))
     insts += arith_insts(tier)
     # &(*parr)[i] / &p->arr[i]: element cells of an in-sandbox array stay inside the array object (contract of C17),
     # hence inside the sandbox whenever the array cell is (cell_inv of the whole array)
